@@ -1,7 +1,7 @@
 //! Seams for deterministic simulation (only compiled with the `verif-hooks` feature).
 //!
 //! Nothing in here changes behaviour unless a simulator installs [`Hooks`]: without them
-//! lock admission and yield points are no-ops and [`SimHashState`] seeds itself from
+//! lock notifications and yield points are no-ops and [`SimHashState`] seeds itself from
 //! `std`'s `RandomState`, exactly like the `HashMap` it replaces.
 
 use std::hash::{BuildHasher, Hasher};
@@ -10,10 +10,9 @@ use std::sync::OnceLock;
 /// Callbacks a simulator installs once per process.
 #[derive(Clone, Copy, Debug)]
 pub struct Hooks {
-    /// Called before a tracked lock is taken; may block the calling thread until admitted.
-    pub lock_acquire: fn(id: usize, site: &'static str),
-    /// Called after a tracked lock was released.
-    pub lock_release: fn(id: usize),
+    /// Called right before a lock is taken. `is_locked` reports whether the real lock is
+    /// currently held; the simulator may park the calling thread until it is free.
+    pub before_lock: fn(is_locked: &dyn Fn() -> bool, site: &'static str),
     /// Called at points where a thread may be descheduled.
     pub yield_point: fn(site: &'static str),
     /// Seed for the next hash map built; `None` falls back to a random seed.
@@ -35,35 +34,20 @@ pub fn yield_point(site: &'static str) {
     }
 }
 
-/// Admission guard for a lock the simulator wants to own the scheduling of.
+/// Tell the simulator that the caller is about to take a lock.
 ///
-/// Declare it *before* taking the real lock so it is dropped after the real guard.
-#[derive(Debug)]
-pub struct LockScope {
-    id: usize,
-    active: bool,
-}
-
-/// Ask the simulator for admission to the lock identified by `id`.
+/// The real lock stays the only source of mutual exclusion; the simulator merely uses
+/// `is_locked` to keep a thread it schedules from blocking inside the operating system.
 #[inline]
-pub fn lock_scope(id: usize, site: &'static str) -> LockScope {
-    match HOOKS.get() {
-        Some(h) => {
-            (h.lock_acquire)(id, site);
-            LockScope { id, active: true }
-        }
-        None => LockScope { id, active: false },
+pub fn before_lock(is_locked: &dyn Fn() -> bool, site: &'static str) {
+    if let Some(h) = HOOKS.get() {
+        (h.before_lock)(is_locked, site);
     }
 }
 
-impl Drop for LockScope {
-    fn drop(&mut self) {
-        if self.active {
-            if let Some(h) = HOOKS.get() {
-                (h.lock_release)(self.id);
-            }
-        }
-    }
+/// `true` if `m` is held by somebody right now (a poisoned mutex counts as free).
+pub fn mutex_is_locked<T>(m: &std::sync::Mutex<T>) -> bool {
+    matches!(m.try_lock(), Err(std::sync::TryLockError::WouldBlock))
 }
 
 /// `BuildHasher` whose per-instance seed comes from the simulator.
